@@ -129,16 +129,54 @@ def check(seq, di, cutoff, metaprefix, ei, ctx=None, want=None):
     return fails
 
 
+def sweep_cases():
+    """Breadth sweeps (mc/sweeps.py): n discovered prefixes for n up to 130 (numbering thresholds), every token inside a URI
+    prefix / as identifier, twin strings as different prefixes."""
+    from .. import sweeps
+
+    out = []
+
+    def add(seq, **kw):
+        base = {"seq": list(seq), "delims": 0, "cutoff": None, "metaprefix": "ns", "existing": 0}
+        base.update(kw)
+        out.append(base)
+
+    for n in sweeps.COUNTS:
+        uris = [f"h:/g{i}/1" for i in range(n)]
+        add(uris)
+        add(uris[::-1], metaprefix="q")
+        add(uris + [f"h:/g{i}/2" for i in range(0, n, 2)], cutoff=2)
+        add([f"h:/g/{i}" for i in range(n)], cutoff=n)            # one prefix with exactly n distinct identifiers
+        add([f"h:/g/{i}" for i in range(n)], cutoff=n + 1)
+    for t in sweeps.TOKENS:
+        for seq in ([f"h:/{t}/1", f"h:/{t}/2", f"h:/a/{t}"], [f"h:/a{t}b_1", f"h:/a{t}b_2", "h:/c/1"], [f"{t}h:/a/1", f"h:/a/1{t}", f"h:/a/{t}1"], [f"h:/a/{t}", f"h:/a#{t}", f"h:/a_{t}"]):
+            add(seq)
+            add(seq, cutoff=2, existing=1)
+    for x, y in list(sweeps.TWINS) + list(sweeps.URL_TWINS):
+        add([f"h:/{x}/1", f"h:/{y}/1"])
+        add([f"{x}1", f"{y}1", f"{x}2"]) if x.startswith(("http", "urn")) else add([f"h:/a/{x}", f"h:/a/{y}"], cutoff=2)
+    return out
+
+
 def units(tier, seed):
     k_full = 3
     sets = [list(s) for n in range(0, k_full + 1) for s in it.combinations(range(len(URIS)), n)]
     us = [{"kind": "full", "sets": ch, "maxlen": 4 if tier == "thorough" else 3} for ch in chunks(sets, 96)]
     sets4 = [list(s) for s in it.combinations(range(len(URIS)), 4)]
     us += [{"kind": "full" if tier == "thorough" else "light", "sets": ch, "maxlen": 4} for ch in chunks(sets4, 128)]
+    us += [{"kind": "sweep", "part": i, "of": 8} for i in range(8)]
     return us
 
 
 def run_unit(unit, ctx):
+    if unit["kind"] == "sweep":
+        for i, case in enumerate(sweep_cases()):
+            if i % unit["of"] != unit["part"]:
+                continue
+            ctx.count("sweep_cases")
+            for sig, msg in replay(case, ctx)[:2]:
+                ctx.violation(sig, msg, case)
+        return
     grid = param_grid(unit["kind"] == "full")
     for idxs in unit["sets"]:
         S = [URIS[i] for i in idxs]
@@ -165,8 +203,8 @@ def run_unit(unit, ctx):
             ctx.sample({"seq": S, "delims": 0, "cutoff": None, "metaprefix": "ns", "existing": 0})
 
 
-def replay(case):
-    return [("C19/" + s, m) for s, m in check(tuple(case["seq"]), case["delims"], case["cutoff"], case["metaprefix"], case["existing"], None)]
+def replay(case, ctx=None):
+    return [("C19/" + s, m) for s, m in check(tuple(case["seq"]), case["delims"], case["cutoff"], case["metaprefix"], case["existing"], ctx)]
 
 
 def describe(tier):
